@@ -86,3 +86,35 @@ From GK Require Import DecLocks.
 Theorem c18_hooks_under_locks_are_source : hook_under_lock = ["Collection.rootDecRef"; "withAllocLocks"].
 Proof. exact DecLocks.hooks_under_locks. Qed.
 Print Assumptions c18_hooks_under_locks_are_source.
+
+(* the producer and consumer of an iterator in the source, statement by statement: the transition system of Iter.v *)
+Theorem c18_iterator_functions_are_source :
+  body "Collection.iterate" =
+    [SDefer (GCall "func() {  close(it.items)   for range it.next {  } }" []);
+     SIf [SAssign [GVar "_"; GVar "ok"] ":=" [GUn "<-" (GVar "it.next")]] (GUn "!" (GVar "ok")) [SReturn []] [];
+     SAssign [GVar "it.err"] "=" [GCall "v" [GVar "t"; GFun "<lit:Collection.iterate#1>"]]] /\
+  body "<lit:Collection.iterate#1>" =
+    [SOther "it.items <- i";
+     SAssign [GVar "_"; GVar "ok"] ":=" [GUn "<-" (GVar "it.next")];
+     SReturn [GVar "ok"]] /\
+  body "iterator.Next" =
+    [SIf [] (GVar "it.closed") [SReturn [GVar "false"]] [];
+     SOther "it.next <- true";
+     SAssign [GVar "i"; GVar "ok"] ":=" [GUn "<-" (GVar "it.items")];
+     SIf [] (GBin "||" (GUn "!" (GVar "ok")) (GBin "!=" (GVar "it.err") GNil))
+       [SExpr (GCall "close" [GVar "it.next"]); SAssign [GVar "it.closed"] "=" [GVar "true"]; SReturn [GVar "false"]] [];
+     SAssign [GVar "it.result"] "=" [GVar "i"];
+     SReturn [GVar "true"]] /\
+  body "newIterator" =
+    [SAssign [GVar "it"] ":=" [GOther "iterator{}"];
+     SAssign [GVar "it.target"] "=" [GVar "target"];
+     SAssign [GVar "it.withValue"] "=" [GVar "withValue"];
+     SAssign [GVar "it.next"] "=" [GCall "make" [GOther "chan bool"]];
+     SAssign [GVar "it.items"] "=" [GCall "make" [GOther "chan *Item"]];
+     SReturn [GUn "&" (GVar "it")]] /\
+  body "Collection.IterateAscend" =
+    [SAssign [GVar "it"] ":=" [GCall "newIterator" [GVar "target"; GVar "withValue"]];
+     SGo (GCall "t.iteratorVisitorAscend" [GVar "it"]);
+     SReturn [GVar "it"]].
+Proof. exact DecIter.iterator_functions. Qed.
+Print Assumptions c18_iterator_functions_are_source.
